@@ -263,6 +263,11 @@ theorem inv_aux : (e : Expr) → GivenOk e = true →
     intro ty h
     simp only [abs] at h
     exact inv_aux e hg ty h
+  | .present a c, hg => by
+    simp only [GivenOk] at hg
+    intro ty h
+    simp only [abs] at h
+    exact inv_aux c hg ty h
 theorem invList_aux : (es : List Expr) → GivenOkList es = true →
     ∀ tys, absList es = some tys → ∀ t ∈ tys, InvT t
   | [], _ => by
